@@ -27,6 +27,8 @@ Suites
             (QV/Model/Bitflip.lean, QOp.pgate of QV/Model/Repeated.lean)
   scale     tools/props/C03_scale.py: collapse_state / collapse_density_matrix and collapsing circuits on
             9-12 qubits (measured subsets of every size, unmeasured qubits >= 8, distinct per-qubit states)
+  handles   tools/props/C03_handles.py: registers of measurements moved with on_qubits / routers (shared result
+            objects), gate-level accessors of collapsing measurements, register names after dump/load
 """
 from __future__ import annotations
 
@@ -2173,6 +2175,9 @@ def run(ctx):
     from props import C03_scale
 
     C03_scale.run_suites(ctx)
+    from props import C03_handles
+
+    C03_handles.run_suites(ctx)
     ctx.notes.append(
         "probabilities: every ordered qubit list for n<=4 (+ random n<=6/7) on Gaussian-integer states and non-Hermitian integer density matrices, "
         "through the backend functions, QuantumState and CircuitResult; binary/decimal/frequency primitives incl. batching with small SHOT_BATCH_SIZE; "
